@@ -42,7 +42,8 @@ _st = collections.OrderedDict()
 for f in sorted(glob.glob(os.path.join(here, "seeded", "*", "meta.json"))):
     m = json.load(open(f))
     name = f.split("/")[-2]
-    rnd = "round 4" if "-r4" in name else "round 3" if "-r3" in name else "round 2" if "-r2" in name else "round 1"
+    _m = re.search(r"-r(\d)m", name)
+    rnd = "round " + (_m.group(1) if _m else "1")
     d = _st.setdefault(rnd, collections.Counter())
     fd = m.get("first_run_detected", m.get("detected"))
     fc = m.get("first_run_concrete", m.get("detected_with_concrete_input"))
